@@ -10,8 +10,10 @@ From Coq Require Import String.
 From Coq Require Import List Ascii ZArith Bool.
 From CGV Require Import Base.PyBase Base.PyVal Base.PyGen Sample.GenSupport Gen.SamplerGen Sample.SampleImpl
      Sample.SampleDefs Sample.SampleSpec Sample.SampleProofs Sample.SampleOrder Sample.SampleHistory Sample.SampleMass
-     Sample.SampleExample.
-From CGV Require Gen.HydroGen Hydro.Hydrogens Hydro.HydroDefs.
+     Sample.SampleExample Sample.SampleMassDefs Sample.SampleMassHydro Sample.SampleTemplateNx Sample.SampleHistoryFail
+     Sample.SampleHistoryExample.
+From CGV Require Import Base.NxGraph.
+From CGV Require Gen.HydroGen Hydro.Hydrogens Hydro.HydroDefs Hydro.RebuildProofs.
 Import ListNotations.
 Open Scope Z_scope.
 
@@ -162,6 +164,62 @@ Example C17_mass_nonvacuous :
     {| f_nodes := [nd 0 (S "C"); nd 1 (S "C"); nd 2 (S "O")]; f_edges := [(0, 1, [(S "order", VInt 1)]); (1, 2, [(S "order", VInt 1)])] |} = Ok 46.
 Proof. vm_compute. reflexivity. Qed.
 
+(** ** the mass model DERIVED from the hydrogen component's node-by-node model of rebuild_h_atoms
+    (Hydro/Hydrogens.v; its end-to-end theorem C09) *)
+(** node order of the completed graph: the original atoms in their order with their elements, then one "H"
+    per added hydrogen; their number is the sum of the per-atom counts max(bonds_missing, 0) *)
+Theorem C17_rebuild_node_order : forall ca g1 g',
+  NoDup (node_keys g1) -> RebuildProofs.closed_g g1 -> RebuildProofs.noself_g g1 ->
+  (forall i n, gfind i g1 = Some n -> RebuildProofs.no_rs n) ->
+  Hydrogens.rebuild_after_car false ca g1 = Ok g' ->
+  exists hcs, Forall2 (fun n hc => hcount_of n = Ok hc /\ 0 <= hc) g1 hcs /\
+    map elt g' = map elt g1 ++ repeat (Some (VStr (S "H"))) (sum_nat (map Z.to_nat hcs)).
+Proof. exact rebuild_node_order. Qed.
+(** for ANY graph that represents the template (elements, charges, bond sums) and any carrier (binary64
+    included: same additions in the same order): the sampler's compute_mass = the loop
+    `for node in molecule.nodes: mass += PTE[element]` over the graph Hydro's rebuild model returns *)
+Theorem C17_mass_from_hydro : forall (M : Type) (c0 : Z -> M) (madd : M -> M -> M) pte t ca g1 g' x,
+  represents t g1 ->
+  NoDup (node_keys g1) -> RebuildProofs.closed_g g1 -> RebuildProofs.noself_g g1 ->
+  (forall i n, gfind i g1 = Some n -> RebuildProofs.no_rs n) ->
+  Hydrogens.rebuild_after_car false ca g1 = Ok g' ->
+  compute_mass M c0 madd pte t = Ok x ->
+  nx_mass M c0 madd pte g' = Ok x.
+Proof. exact mass_from_hydro. Qed.
+(** rebuild_h_atoms as a whole (aromaticity transcript [car] under the Hydro contract) *)
+Theorem C17_mass_from_hydro_rebuild : forall (M : Type) (c0 : Z -> M) (madd : M -> M -> M) pte t ca g car g' x,
+  NoDup (node_keys g) -> RebuildProofs.closed_g g -> RebuildProofs.noself_g g ->
+  Hydrogens.rebuild_h_atoms false ca g car = Ok g' ->
+  (forall g1, car = Some g1 -> represents t g1 /\ forall i n, gfind i g1 = Some n -> RebuildProofs.no_rs n) ->
+  compute_mass M c0 madd pte t = Ok x ->
+  nx_mass M c0 madd pte g' = Ok x.
+Proof. exact mass_from_hydro_rebuild. Qed.
+(** the fragment graph itself (add_node / add_edge replay of the template) represents the template and
+    satisfies the structural hypotheses, for every fragment with distinct keys, own edges, no pair twice
+    and dict attributes ([mass_wfb], evaluated on every case) *)
+Theorem C17_template_nx_represents : forall t, mass_wf t ->
+  represents t (template_nx t) /\
+  NoDup (node_keys (template_nx t)) /\ RebuildProofs.closed_g (template_nx t) /\ RebuildProofs.noself_g (template_nx t) /\
+  (forall i n, gfind i (template_nx t) = Some n -> RebuildProofs.no_rs n).
+Proof. exact template_nx_represents. Qed.
+Theorem C17_mass_wfb_sound : forall t, mass_wfb t = true -> mass_wf t.
+Proof. exact mass_wfb_sound. Qed.
+(** hence: fragment_masses computed by compute_mass = the table masses of the atoms of the COMPLETED
+    fragment, as the hydrogen component's model describes it, added up in its node order *)
+Theorem C17_mass_is_hydro_mass : forall (M : Type) (c0 : Z -> M) (madd : M -> M -> M) pte t ca g' x, mass_wf t ->
+  Hydrogens.rebuild_after_car false ca (template_nx t) = Ok g' ->
+  compute_mass M c0 madd pte t = Ok x ->
+  nx_mass M c0 madd pte g' = Ok x.
+Proof. exact mass_is_hydro_mass. Qed.
+Example C17_mass_is_hydro_mass_nonvacuous :
+  let pte := [(S "H", 1); (S "C", 12); (S "O", 16)] in
+  mass_wf ex_mass_tpl /\
+  exists g', Hydrogens.rebuild_after_car false HydroGen.rebuild_copy_attrs_default (template_nx ex_mass_tpl) = Ok g' /\
+    map elt g' = map (fun e => Some (VStr (S e))) ["C"; "H"; "C"; "O"; "H"; "H"; "H"; "H"]%string /\
+    compute_mass Z (fun z => z) Z.add pte ex_mass_tpl = Ok 45 /\
+    nx_mass Z (fun z => z) Z.add pte g' = Ok 45.
+Proof. exact mass_is_hydro_mass_nonvacuous. Qed.
+
 (** non-vacuity: the example run (six steps; masses 28/15, target 120): 129 >= 120 and 114 < 120;
     the zero conditional weight ('$A' -> '$A') is never chosen, the terminal '$B' closes its atom *)
 Example C17_nonvacuous :
@@ -174,6 +232,73 @@ Proof.
   split; [reflexivity|]. split; [vm_compute; reflexivity|]. split; [vm_compute; reflexivity|].
   eexists. split; vm_compute; reflexivity.
 Qed.
+
+(** ** histories with ONE generator cell shared by all samplers, kept across failed samples
+    (Sample/SampleHistoryFail.v): [sample_growth_s] = sample_growth with the generator state threaded through failures *)
+Section C17_histories.
+  Variable M : Type.
+  Variables (c0 : Z -> M) (madd : M -> M -> M) (mltb : M -> M -> bool) (misz : M -> bool).
+  Variable R : Type.
+  Variable rseed : Z -> R.
+  Variable pick : R -> nat -> option (list M) -> res (nat * R).
+  Let growth_s := sample_growth_s M c0 madd mltb misz R pick.
+  Let run2 := hrun2 M c0 madd mltb misz R rseed pick.
+  Let result := result_of M c0 madd mltb misz R pick.
+
+  Theorem C17_growth_state_refines : forall cfg target fuel rng start,
+    sample_growth M c0 madd mltb misz R pick cfg target fuel rng start =
+    match growth_s cfg target fuel rng start with
+    | (r, Ok (nm, i0, m, cw, log)) => Ok (nm, i0, m, cw, log, r)
+    | (_, Err e) => Err e
+    end.
+  Proof. exact (growth_refines M c0 madd mltb misz R pick). Qed.
+  (** whatever came before (also samples that failed half-way): construct(seed); sample = the fresh run *)
+  Theorem C17_seed_determines_after_failures : forall st id a seed target start fuel cfg,
+    init M (a_frags M a) (a_poly M a) (a_fragreact M a) (a_term M a) (a_masses M a) = Ok cfg ->
+    snd (run2 st [Construct M id a seed; Sample M id target start fuel]) =
+    [None; Some (result cfg target fuel (rseed seed) start)] /\
+    snd (run2 st [Construct M id a seed; Sample M id target start fuel]) = fresh_run M c0 madd mltb misz R rseed pick a seed target start fuel.
+  Proof. exact (seed_determines2 M c0 madd mltb misz R rseed pick). Qed.
+  (** construct A(seed_A); construct B(seed_B); sample A = A's tables run from seed_B (what a fresh
+      construct A(seed_B); sample returns), also when B's constructor raises *)
+  Theorem C17_interleaved_sample : forall st ida idb a b seed_a seed_b target start fuel cfga,
+    ida <> idb ->
+    init M (a_frags M a) (a_poly M a) (a_fragreact M a) (a_term M a) (a_masses M a) = Ok cfga ->
+    exists ob, snd (run2 st [Construct M ida a seed_a; Construct M idb b seed_b; Sample M ida target start fuel]) =
+               [None; ob; Some (result cfga target fuel (rseed seed_b) start)] /\
+      nth 1 (fresh_run M c0 madd mltb misz R rseed pick a seed_b target start fuel) None
+        = Some (result cfga target fuel (rseed seed_b) start).
+  Proof. exact (interleaved_sample M c0 madd mltb misz R rseed pick). Qed.
+  (** a sample after a FAILED sample runs from the state the failed call reached *)
+  Theorem C17_sample_after_failed : forall st id a seed t1 s1 f1 t2 s2 f2 cfg,
+    init M (a_frags M a) (a_poly M a) (a_fragreact M a) (a_term M a) (a_masses M a) = Ok cfg ->
+    snd (run2 st [Construct M id a seed; Sample M id t1 s1 f1; Sample M id t2 s2 f2]) =
+    [None; Some (result cfg t1 f1 (rseed seed) s1);
+     Some (result cfg t2 f2 (fst (growth_s cfg t1 f1 (rseed seed) s1)) s2)].
+  Proof. exact (sample_after_failed M c0 madd mltb misz R rseed pick). Qed.
+  (** a call that failed before its first draw (unknown start fragment) is invisible *)
+  Theorem C17_sample_after_early_failure : forall st id a seed t1 f1 c s t2 s2 f2 cfg,
+    init M (a_frags M a) (a_poly M a) (a_fragreact M a) (a_term M a) (a_masses M a) = Ok cfg ->
+    dict_get (c_frags cfg) (c :: s) = None ->
+    snd (run2 st [Construct M id a seed; Sample M id t1 (Some (c :: s)) f1; Sample M id t2 s2 f2]) =
+    [None; Some (Err EKey); Some (result cfg t2 f2 (rseed seed) s2)].
+  Proof. exact (sample_after_early_failure M c0 madd mltb misz R rseed pick). Qed.
+End C17_histories.
+(** non-vacuity: a sampler whose growth dead-ends (IndexError) after five of ten available draws: the failed call
+    leaves five, the next sample succeeds on them, the one after finds the generator exhausted *)
+Example C17_failed_sample_consumes :
+  exists cfg, init Z (a_frags Z ex_dead_args) [] [] [] (a_masses Z ex_dead_args) = Ok cfg /\
+    ex_growth_s cfg 100 20%nat (ex_rseed 0) None = (repeat 0%nat 5, Err EIndex) /\
+    map start_name (snd (ex_hrun2 ex_st0 [Construct Z 0 ex_dead_args 0; Sample Z 0 100 None 20; Sample Z 0 5 None 20; Sample Z 0 5 None 20]))
+      = [None; None; Some (S "A"); None] /\
+    nth 3 (snd (ex_hrun2 ex_st0 [Construct Z 0 ex_dead_args 0; Sample Z 0 100 None 20; Sample Z 0 5 None 20; Sample Z 0 5 None 20])) None
+      = Some (Err EStopIter).
+Proof. exact failed_sample_consumes. Qed.
+Example C17_interleaving_uses_last_seed :
+  map start_name (snd (ex_hrun2 ex_st0 [Construct Z 0 ex_args 1; Construct Z 1 ex_dead_args 2; Sample Z 0 50 None 40])) = [None; None; Some (S "B")] /\
+  map start_name (snd (ex_hrun2 ex_st0 [Construct Z 0 ex_args 2; Sample Z 0 50 None 40])) = [None; Some (S "B")] /\
+  map start_name (snd (ex_hrun2 ex_st0 [Construct Z 0 ex_args 1; Sample Z 0 50 None 40])) = [None; Some (S "A")].
+Proof. exact interleaving_uses_last_seed. Qed.
 
 (** every generated definition used above is the translation of the CURRENT source (when a function
     leaves the translatable shapes the generator emits a fall-back text for the executable check only
@@ -202,3 +327,17 @@ Print Assumptions C17_template_hcount_spec.
 Print Assumptions C17_mass_is_sum.
 Print Assumptions C17_mass_is_sum_Z.
 Print Assumptions C17_nonvacuous.
+Print Assumptions C17_rebuild_node_order.
+Print Assumptions C17_mass_from_hydro.
+Print Assumptions C17_mass_from_hydro_rebuild.
+Print Assumptions C17_template_nx_represents.
+Print Assumptions C17_mass_wfb_sound.
+Print Assumptions C17_mass_is_hydro_mass.
+Print Assumptions C17_mass_is_hydro_mass_nonvacuous.
+Print Assumptions C17_growth_state_refines.
+Print Assumptions C17_seed_determines_after_failures.
+Print Assumptions C17_interleaved_sample.
+Print Assumptions C17_sample_after_failed.
+Print Assumptions C17_sample_after_early_failure.
+Print Assumptions C17_failed_sample_consumes.
+Print Assumptions C17_interleaving_uses_last_seed.
